@@ -92,7 +92,66 @@ def mutate(rng, line):
     return "\t".join(f)
 
 
+def gen_validate_case(rng):
+    """a document, possibly with lines taken away (references left dangling) or a `$` put on / taken off a position:
+    Gfa.validate() against GfaModel/Validate.lean"""
+    v = rng.choice(["gfa1", "gfa2"])
+    d = D.gen_doc(rng, version=v, max_lines=rng.choice([6, 10, 14]), no_custom=True, same_id_groups=False)
+    lines = [l for l in d["lines"] if l.split("\t")[0] in ("S", "L", "C", "P", "E", "G", "F", "O", "U")]
+    k = rng.choice([0, 0, 1, 1, 2])
+    for _ in range(k):
+        if len(lines) > 1:
+            # segments and links are what others refer to
+            cand = [i for i, l in enumerate(lines) if l[0] in "SLEG"] or list(range(len(lines)))
+            del lines[rng.choice(cand)]
+    if v == "gfa2" and rng.random() < 0.5:
+        idx = [i for i, l in enumerate(lines) if l[0] in "EF"]
+        if idx:
+            i = rng.choice(idx)
+            f = lines[i].split("\t")
+            cols = [4, 5, 6, 7] if f[0] == "E" else [3, 4]
+            c = rng.choice(cols)
+            if f[c].endswith("$"):
+                f[c] = rng.choice([f[c][:-1], str(max(0, int(f[c][:-1]) - 1)) + "$"])
+            else:
+                f[c] = f[c] + "$"
+            lines[i] = "\t".join(f)
+    if rng.random() < 0.5:
+        rng.shuffle(lines)
+    return {"dt": "gvalidate", "version": v, "strings": lines}
+
+
+def validate_ops(case):
+    from harness.corr.graphcorr import supported_add, ERRS
+    gfapy = lib.import_gfapy()
+    v = case["version"]
+    g = gfapy.Gfa(version=v, vlevel=1)
+    ops, exp = [op("g.new", v)], ["ok"]
+    for l in case["strings"]:
+        if not supported_add(l) or lib.outcome(gfapy.Line, l, version=v, vlevel=1)[0] != "ok":
+            return [], []
+        r = lib.outcome(g.add_line, l)
+        if r[0] == "ok":
+            e = "ok"
+        elif r[0] == "gerr" and r[1] in ERRS:
+            e = "gerr " + r[1]
+        else:
+            return [], []
+        ops.append(op("g.add", l)); exp.append(e)
+    r = lib.outcome(g.validate)
+    if r[0] == "ok":
+        e = "ok"
+    elif r[0] == "gerr" and r[1] in ("NotFoundError", "InconsistencyError"):
+        e = "gerr " + r[1]
+    else:
+        return [], []
+    ops.append(op("g.validate")); exp.append(e)
+    return ops, exp
+
+
 def gen_case(rng, tier, i):
+    if i % 3 == 2:
+        return gen_validate_case(rng)
     v = rng.choice(["gfa1", "gfa2"])
     d = D.gen_doc(rng, version=v, max_lines=10, odd=0.3, no_custom=True)
     lines = [l for l in d["lines"] if l.split("\t")[0] in ("H", "S", "L", "C", "P", "E", "G", "F", "O", "U")]
@@ -150,6 +209,8 @@ def model_ops(case):
     gfapy = lib.import_gfapy()
     if case["dt"] == "line":
         return line_ops(case)
+    if case["dt"] == "gvalidate":
+        return validate_ops(case)
     ops, exp = [], []
     dt = case["dt"]
     for s in case["strings"]:
